@@ -405,6 +405,10 @@ class Ops:
                 return False
             terms = [self.eq(x, y) for x, y in zip(a.items, b.items)]
             return self.and_(terms)
+        if isinstance(a, ObjV) or isinstance(b, ObjV):
+            va, vb = self.int_enum_value(a), self.int_enum_value(b)
+            if (va is not a or vb is not b) and is_num(va) and is_num(vb):
+                return self.eq(va, vb)
         if isinstance(a, ObjV):
             fn = self.find_method(a.cls, "__eq__")
             if fn is not None:
@@ -463,8 +467,20 @@ class Ops:
             return not c
         return z3.Not(t)
 
+    def int_enum_value(self, v: V) -> V:
+        """members of an IntEnum compare (==, <, ...) as their integer values"""
+        if isinstance(v, ObjV) and "value" in v.fields:
+            try:
+                info = self.world.find_class(v.cls)
+            except KeyError:
+                info = None
+            if info is not None and getattr(info, "is_int_enum", False):
+                return v.fields["value"]
+        return v
+
     def less(self, a: V, b: V, strict: bool = True) -> Any:
         """a < b (strict) or a <= b."""
+        a, b = self.int_enum_value(a), self.int_enum_value(b)
         if is_num(a) and is_num(b):
             ta, tb = as_num_term(a), as_num_term(b)
             return ta < tb if strict else ta <= tb
